@@ -175,6 +175,10 @@ class World:
         kw = {}
         if opts and 'prio' in opts:
             kw['priority'] = opts['prio']
+        if opts and opts.get('precancel'):
+            # cancelled before it is handed to fire() (an entry of a prepared batch that was vetoed)
+            e.cancel()
+            self.log.append(('cancel', e.eid))
         self.values[e.eid] = (firer or self.comp).fire(e, **kw)
         if opts and opts.get('cancel'):
             e.cancel()
